@@ -213,6 +213,63 @@ def u8_match_table(body, kind_names):
     return out
 
 
+def _indexed_name_table(b, knames):
+    """{kind name: text} for `_0 = CONST_ARRAY[discr(_1) as usize]`"""
+    strs = None
+    arr_local = None
+    for bi in range(b.n):
+        for st in b.blocks[bi]["stmts"]:
+            if st["k"] == "assign" and not st["lhs"]["p"] and st["rv"]["k"] == "use":
+                c = op_const(st["rv"]["op"])
+                if c is not None and isinstance(c.get("strs"), list):
+                    strs, arr_local = c["strs"], st["lhs"]["l"]
+    if strs is None:
+        return None
+    for _bi, si, rv in b.defs().get(0, []):
+        if si == "term" or rv["k"] != "use":
+            return None
+        pl = op_place(rv["op"])
+        if pl is None or pl["l"] != arr_local or len(pl["p"]) != 1 or not isinstance(pl["p"][0], dict) or "idx" not in pl["p"][0]:
+            return None
+        iv = G.describe_place(b, {"l": pl["p"][0]["idx"], "p": []})
+        if not re.fullmatch(r"discr:\(_1\**\)", repr(iv)):
+            return None
+    if len(b.defs().get(0, [])) != 1:
+        return None
+    return {knames[i]: s for i, s in enumerate(strs) if i in knames}
+
+
+def _try_from_other_forms(prog, b, payload, vnames):
+    """(positive set, negative set, default) of a TryFrom<&Value> that does not match on the value itself:
+    (a) `if value.is_k() { Ok(..) } else { Err(..) }` - Ok exactly under the kind predicate (whose own table is a separate
+        obligation), by truth table; (b) `K::try_from(value).map(|v| ..)` - succeeds exactly when the wrapper's conversion does"""
+    from rules import pathcond as PC
+
+    rv = G.describe_place(b, {"l": 0, "p": []})
+    if rv.kind == "call" and strip_generics(rv.v).endswith(("Result::map", "Result::and_then")) and rv.args and rv.args[0].kind == "call":
+        inner = rv.args[0]
+        m = re.match(r"^<(haystack::val::[A-Za-z_:]+) as std::convert::TryFrom(<[^>]*>)?>::try_from$", strip_generics(inner.v))
+        if m and inner.args and re.fullmatch(r"_1\**", repr(inner.args[0])) and strip_generics(rv.v).endswith("Result::map"):
+            k = payload.get(m.group(1))
+            if k:
+                return ({k}, set(), False)
+    oks = {bi for bi in range(b.n) for st in b.blocks[bi]["stmts"] if st["k"] == "assign" and not st["lhs"]["p"] and st["lhs"]["l"] == 0 and st["rv"]["k"] == "agg" and st["rv"].get("variant") == "Ok"}
+    errs = {bi for bi in range(b.n) for st in b.blocks[bi]["stmts"] if st["k"] == "assign" and not st["lhs"]["p"] and st["lhs"]["l"] == 0 and st["rv"]["k"] == "agg" and st["rv"].get("variant") == "Err"}
+    if oks and errs:
+        p_ok = PC.enumerate_paths(b, lambda x: x in oks)
+        p_err = PC.enumerate_paths(b, lambda x: x in errs)
+        atoms = PC.atoms_of(p_ok + p_err)
+        if len(atoms) == 1 and re.match(r"is_[a-z_]+\(_1\**\)$", atoms[0]):
+            a = atoms[0]
+            o1, _ = PC.entails(p_ok, lambda asg: bool(asg.get(a)), atoms)
+            o2, _ = PC.entails(p_err, lambda asg: not asg.get(a), atoms)
+            kind = a[3:a.index("(")]
+            name = next((nm for nm in vnames.values() if nm.lower() == kind.replace("_", "")), None)
+            if o1 and o2 and name:
+                return ({name}, set(), False)
+    return None
+
+
 def _kind_eq_is_discriminant_eq(prog):
     """HaystackKind's == compares the two discriminants and nothing else (the derived implementation of a field-less enum)"""
     for b in prog.bodies.values():
@@ -275,6 +332,10 @@ def check(ctx, rep):
     if b_to is not None:
         tab = table_of_switch(b_to, KIND, knames)
         t_to = {k: v[1] for k, v in (tab or {}).items() if v and v[0] == "str"}
+        if not t_to:
+            # the table spelling: `NAMES[kind as usize]` with a constant array of texts - entry i belongs to the kind whose
+            # discriminant is i (the texts are read from the constant's memory by the extraction engine)
+            t_to = _indexed_name_table(b_to, knames) or {}
     if b_disp is not None:
         # Display assigns a local, not _0: read the constant reaching write!
         t_disp = {}
@@ -427,6 +488,8 @@ def check(ctx, rep):
         want = payload.get(ty) or PRIM.get(ty) or ty.split("::")[-1]
         r = positive_variants(b, vnames)
         key = "try_from:%s" % ty.split("::")[-1].rstrip(">")
+        if r is None:
+            r = _try_from_other_forms(prog, b, payload, vnames)
         if r is None:
             rep.gap(key, b.where(), "no switch on the value's discriminant")
             continue
